@@ -639,6 +639,23 @@ func (e *Engine) prefixIntrinsic(name string) intrinsic {
 		return func(e *Engine, s *State, t *Thread, f *Frame, args []Value, res ssa.Value) (Value, bool) {
 			return ret(nil)
 		}
+	case strings.HasPrefix(name, "(*github.com/pion/randutil.mathRandomGenerator)."):
+		m := name[strings.LastIndex(name, ".")+1:]
+		return func(e *Engine, s *State, t *Thread, f *Frame, args []Value, res ssa.Value) (Value, bool) {
+			switch m {
+			case "Intn":
+				n := args[1].(*Term)
+				v := e.nondetEnv(s, "randintn", 64)
+				s.addPC(And(BVSle(i64(0), v), BVSlt(v, n)))
+				return ret(v)
+			case "Uint32":
+				return ret(e.nondetEnv(s, "rand32", 32))
+			case "Uint64":
+				return ret(e.nondetEnv(s, "rand64", 64))
+			}
+			e.unsupportedf("randutil %s", m)
+			return nil, true
+		}
 	case strings.HasPrefix(name, "(*sync/atomic."):
 		// typed atomics: (*sync/atomic.Uint32).Add etc. value in last slot of struct
 		i := strings.Index(name, ").")
